@@ -102,6 +102,10 @@ func (d *DefaultStore) CreateLedger(ctx context.Context, l *ledger.Ledger) error
 }
 
 func (d *DefaultStore) UpdateLedgerMetadata(ctx context.Context, name string, m metadata.Metadata) error {
+	if m == nil {
+		// a nil map is rendered as the JSON value null, and `metadata || 'null'` turns the column into an array
+		m = metadata.Metadata{}
+	}
 	_, err := d.db.NewUpdate().
 		Model(&ledger.Ledger{}).
 		Set("metadata = metadata || ?", m).
